@@ -463,9 +463,60 @@ def run_history(ctx, h, scratch):
                 ctx.violation("result-aliases-receiver", "overwriting the top level of what %s returned changed the receiver" % name, dict(wit, op=name))
                 return False
         ctx.state("ops_observed", (kind, name))
+    if not check_default_equivalence(ctx, kind, obj, tf, nofs, scratch, wit):
+        return False
     if kind in ("tag", "list"):
         return check_views_and_copy(ctx, obj, kind, r, wit, rng)
     return True
+
+
+def check_default_equivalence(ctx, kind, obj, tf, nofs, scratch, wit):
+    """Leaving a parameter out is the same as passing its documented default - positionally or by keyword."""
+    ops = ops_for(kind, scratch)
+    groups = []
+    if kind in ("tag", "list"):
+        if not tf:
+            groups.append(("get_html_string", [lambda: obj.get_html_string(), lambda: obj.get_html_string(0), lambda: obj.get_html_string(0, "\n"),
+                                               lambda: obj.get_html_string(indent=0, eol="\n"), lambda: obj.get_html_string(eol="\n")]
+                           + ([lambda: obj.get_html_string(0, "\n", add_ws=True), lambda: obj.get_html_string(add_ws=True)] if kind == "list" else [])))
+        groups.append(("get_dependencies", [lambda: obj.get_dependencies(), lambda: obj.get_dependencies(dedup=True)] + ([lambda: obj.get_dependencies(True)] if kind == "tag" else [])))
+        if not nofs and ctx.rng.random() < 0.2:
+            groups.append(("save_html", [lambda: ops["save_html"](obj), lambda: _save_kw(ops, obj, libdir="lib", include_version=True), lambda: _save_kw(ops, obj, libdir="lib")]))
+    elif kind == "doc":
+        groups.append(("render", [lambda: obj.render(), lambda: obj.render(lib_prefix="lib", include_version=True), lambda: obj.render(lib_prefix="lib"), lambda: obj.render(include_version=True)]))
+    else:
+        groups.append(("as_dict", [lambda: obj.as_dict(), lambda: obj.as_dict(lib_prefix="lib", include_version=True), lambda: obj.as_dict(include_version=True)]))
+        groups.append(("as_html_tags", [lambda: obj.as_html_tags(), lambda: obj.as_html_tags(lib_prefix="lib", include_version=True), lambda: obj.as_html_tags(lib_prefix="lib")]))
+        groups.append(("source_path_map", [lambda: obj.source_path_map(), lambda: obj.source_path_map(lib_prefix="lib", include_version=True)]))
+        groups.append(("serialize_to_script_json", [lambda: obj.serialize_to_script_json(), lambda: obj.serialize_to_script_json(None), lambda: obj.serialize_to_script_json(indent=None)]))
+    for name, variants in groups:
+        results = []
+        for v in variants:
+            try:
+                results.append(fp(v()))
+            except Exception as e:
+                results.append(("raised", type(e).__name__))
+        ctx.count("monitor.default_equivalence")
+        if any(x != results[0] for x in results[1:]):
+            ctx.violation("default-not-equivalent-to-omission", "%s: leaving parameters out differs from passing their documented defaults (variant %d)"
+                          % (name, next(i for i, x in enumerate(results) if x != results[0])), dict(wit, op=name))
+            return False
+    return True
+
+
+def _save_kw(ops, obj, **kw):
+    import tempfile as _tf
+
+    d = _tf.mkdtemp()
+    try:
+        f = os.path.join(d, "index.html")
+        ret = obj.save_html(f, **kw)
+        with open(f) as fh:
+            content = fh.read()
+        listing = sorted(os.path.relpath(os.path.join(dp, fn), d) for dp, _, fns in os.walk(d) for fn in fns)
+        return (os.path.relpath(ret, d), content, listing)
+    finally:
+        shutil.rmtree(d, ignore_errors=True)
 
 
 def _purity_key(kind, name, r):
